@@ -351,9 +351,15 @@ func (r *Rearranger) Rearrange() RangePoints {
 
 	locationStack := make([]rangeLocation, 0, 129) // normally 129 values from /0 to /128, but can be more if the same IP range was declared more than once
 	stackTop := -1
-	for _, point := range result {
+	for i, point := range result {
 		switch point.pointKind {
 		case pointKindStart:
+			if point.location.maskLen == 0 && point.rangeStart.Equal(afterIPv4) {
+				// pseudo point resuming IPv6 after the IPv4 block: it has no end, so it must not
+				// open a range; the location is whatever spans the block (::/0, ::/8, ... or null)
+				result[i] = &RangePoint{rangeStart: afterIPv4, pointKind: pointKindStart, location: locationStack[stackTop]}
+				continue
+			}
 			// push the location
 			stackTop++
 			if stackTop == len(locationStack) {
@@ -365,6 +371,13 @@ func (r *Rearranger) Rearrange() RangePoints {
 		case pointKindEnd:
 			stackTop--                               // pop
 			point.location = locationStack[stackTop] // location comes from the range that spans this range point
+		}
+	}
+
+	// ranges ending at the same address: the location comes from the range that spans all of them
+	for i := len(result) - 2; i >= 0; i-- {
+		if next := result[i+1]; result[i].pointKind == pointKindEnd && next.pointKind == pointKindEnd && next.rangeStart.Equal(result[i].rangeStart) {
+			result[i].location = next.location
 		}
 	}
 
